@@ -5,7 +5,9 @@ per property and rule, the obligation count must not fall below ~50% of the conf
 import json,glob,math
 # rule names that bundle several small pattern rules (each with a handful of sites a tidy-up may
 # legitimately dissolve: print sites folded into a helper, two loops merged): no minimum either
-NO_MIN={"T-SNBT","R-RING","R-ACCEPT","R-ESCAPE","R-ERRAS","R-LEN","R-SIBLING"}
+NO_MIN={"T-SNBT","R-RING","R-ACCEPT","R-ESCAPE","R-ERRAS","R-LEN","R-SIBLING","R-RESET","R-UNKTAG","R-COUNT","T-FMTCODE"}
+# (rule, property) pairs with no minimum: the rule has a single pattern obligation under this property
+NO_MIN_AT={("R-REFLKIND","C03"),("R-PANIC","C17")}
 # rules whose sites follow the number of functions the code happens to be split into (scanner states,
 # reflect-kind switches): a tidy-up may merge them, so only "at least one site" is demanded
 LOW_MIN={"T-SCANSTATE","R-REFLKIND"}
@@ -13,6 +15,6 @@ out={}
 for f in sorted(glob.glob('/verif/evidence/C*.json')):
     e=json.load(open(f))
     per=e['coverage'].get('per_rule',{})
-    out[e['property_id']]={"min":{r:(0 if r in NO_MIN else min(1,n) if r in LOW_MIN else max(1,int(math.floor(n*0.5))) if n>=10 else int(math.floor(n*0.34))) for r,n in sorted(per.items())},"keys":[]}
+    out[e['property_id']]={"min":{r:(0 if (r in NO_MIN or (r,e["property_id"]) in NO_MIN_AT) else min(1,n) if r in LOW_MIN else max(1,int(math.floor(n*0.5))) if n>=10 else int(math.floor(n*0.34))) for r,n in sorted(per.items())},"keys":[]}
 json.dump(out,open('/verif/rules/anchors.json','w'),indent=1,sort_keys=True)
 print({k:sum(v['min'].values()) for k,v in out.items()})
